@@ -532,6 +532,81 @@ func runC19(r *vk.Run) {
 			c.Sample("laws", map[string]any{"q": qt, "f": f.Text, "not_f": f.Neg, "g": g.Text, "Rq": len(base), "Rqf": len(rf)})
 		}
 	})
+	// the laws on records that are not unique (the same line at the same instant, in any neighbourhood) and
+	// on more records than a default page or cap: entries are counted as a multiset of (timestamp, line)
+	r.Phase("multiset", r.N(40, 2000), func(c *vk.Case) {
+		rng := c.Rng
+		var recs []Rec
+		bulk := c.Idx%10 == 0
+		if bulk {
+			n := rng.Range(5200, 6500)
+			for i := 0; i < n; i++ {
+				recs = append(recs, Rec{TS: logT0 + int64(i+1)*1e6, Line: fmt.Sprintf("%s n=%d", vk.Pick(rng, []string{"A", "B", "B", "C"}), i), Labels: map[string]string{"app": "x"}})
+			}
+		} else {
+			n := rng.Range(3, 12)
+			ts := logT0 + 1e9
+			for i := 0; i < n; i++ {
+				if !rng.Chance(2, 3) {
+					ts += 1e9
+				}
+				recs = append(recs, Rec{TS: ts, Line: vk.Pick(rng, []string{"A", "B", "A", "C x", "B"}), Labels: map[string]string{"app": "x"}})
+			}
+		}
+		// (no prefix ends in a drop / keep list: a following `!= "x"` would be read as part of the list)
+		q := `{app="x"}` + vk.Pick(rng, []string{"", " | drop msg | logfmt", ` | drop msg | label_format l="{{ __line__ }}"`, " | logfmt"})
+		f := vk.Pick(rng, []filt{{Text: `|= "B"`, Neg: `!= "B"`}, {Text: `|~ "^A"`, Neg: `!~ "^A"`}, {Text: `| msg="B"`, Neg: `| msg!="B"`}, {Text: `|= "C"`, Neg: `!= "C"`}})
+		if strings.Contains(q, "drop msg") && strings.HasPrefix(f.Text, "| msg") {
+			f = filt{Text: `|= "A"`, Neg: `!= "A"`}
+		}
+		p := EvalP{Start: logT0, End: logT0 + int64(len(recs)+20)*1e9, Step: time.Second, Limit: vk.Pick(rng, []int{-1, 0})}
+		bag := func(text string) (map[string]int, int, error) {
+			res, err := evalQuery(&MemQuerier{Recs: recs, ErrAfter: -1}, text, p)
+			c.Eval(1)
+			m, tot := map[string]int{}, 0
+			for _, st := range res.Streams {
+				for _, e := range st.Entries {
+					m[fmt.Sprintf("%d %q", e.TS, e.Line)]++
+					tot++
+				}
+			}
+			return m, tot, err
+		}
+		bq, nq, err1 := bag(q)
+		bf, nf, err2 := bag(q + " " + f.Text)
+		bn, nn, err3 := bag(q + " " + f.Neg)
+		det := map[string]any{"q": q, "f": f, "records": len(recs), "limit": p.Limit}
+		if !bulk {
+			det["record_list"] = recs
+		}
+		if err1 != nil || err2 != nil || err3 != nil {
+			c.Fail("", fmt.Sprintf("query failed: %v %v %v", err1, err2, err3), det)
+			return
+		}
+		if nq != len(recs) {
+			c.Fail("", fmt.Sprintf("%s returns %d entries for %d records", q, nq, len(recs)), det)
+			return
+		}
+		for k, v := range bq {
+			if bf[k]+bn[k] != v || (bf[k] != 0 && bn[k] != 0) {
+				c.Fail("", fmt.Sprintf("entry %s: %d in R(q), %d in R(q %s), %d in R(q %s)", k, v, bf[k], f.Text, bn[k], f.Neg), det)
+				return
+			}
+		}
+		if nf+nn != nq {
+			c.Fail("", fmt.Sprintf("%s and %s do not partition R(q): %d + %d != %d", f.Text, f.Neg, nf, nn, nq), det)
+			return
+		}
+		c.Count("multiset_partitions", 1)
+		if bulk {
+			c.Count("multiset_partitions_over_5000_records", 1)
+		}
+		if nf > 0 && nn > 0 {
+			c.Nontrivial(fmt.Sprintf("multiset|%d", c.Idx))
+		}
+	})
+	r.Require("multiset_partitions", 30)
+	r.Require("multiset_partitions_over_5000_records", 2)
 	r.Require("law:subset", 1500)
 	r.Require("law:partition_nontrivial", 150)
 	r.Require("law:commute", 1500)
